@@ -66,8 +66,9 @@ class AutorefMachine(Machine):
     name = 'autoref'
 
     def __init__(self, names, max_live=3, reordering=(False,), ops=('and', 'or'),
-                 rich=True, forced=(), traversal=True, seeds=('fresh', 'used')):
+                 rich=True, forced=(), traversal=True, seeds=('fresh', 'used'), files=False):
         self.names = tuple(names)
+        self.files = files
         self.U = Universe(self.names)
         self.max_live = max_live
         self.reordering = tuple(reordering)
@@ -142,6 +143,13 @@ class AutorefMachine(Machine):
                 acts.append(('cube', self.names[0], self.names[-1]))
                 for i in idx:
                     acts.append(('copy_roundtrip', i))
+                if self.files:
+                    for i in idx:
+                        acts.append(('file_rt', i, 'p'))
+                        acts.append(('file_rt', i, 'json'))
+                        for how in ('cut', 'dangling'):
+                            acts.append(('bad_json', i, how, False))
+                            acts.append(('bad_json', i, how, True))
             if self.traversal:
                 for i in idx:
                     acts.append(('low', i))
@@ -246,6 +254,45 @@ class AutorefMachine(Machine):
             new = _autoref.copy_bdd(there, bdd)
             want = masks[a[1]]
             del there
+        elif kind == 'file_rt':
+            import os
+            env.scratch_dir()
+            fname = 'c08-%d.%s' % (os.getpid(), a[2])
+            bdd.dump(fname, [fns[a[1]]])
+            back = bdd.load(fname)
+            os.remove(fname)
+            if check and len(back) != 1:
+                raise Violation('load returned another number of roots than were dumped')
+            new, want = back[0], masks[a[1]]
+            del back
+        elif kind == 'bad_json':
+            # a damaged JSON dump of a live function is loaded into the same manager: whatever
+            # the loader does (raise, or load a prefix), the live Functions keep their counts
+            import os
+            env.scratch_dir()
+            fname = 'c08-%d.json' % os.getpid()
+            bdd.dump(fname, [fns[a[1]]])
+            lines = open(fname).read().splitlines()
+            if a[2] == 'cut':
+                lines = lines[:max(2, len(lines) - 2)]
+            else:
+                ks = [k for k, l in enumerate(lines) if l.startswith('"') and '[' in l and
+                      not l.startswith('"level_of_var"') and not l.startswith('"roots"')]
+                if ks:
+                    head, rest = lines[ks[-1]].split('[', 1)
+                    parts = rest.rstrip('],').split(',')
+                    parts[1] = ' 424242'
+                    lines[ks[-1]] = head + '[' + ','.join(parts) + '],'
+                else:
+                    lines = lines[:-1]
+            open(fname, 'w').write('\n'.join(lines) + '\n')
+            try:
+                back = _copy.load_json(fname, bdd, load_order=a[3])
+                del back
+            except Exception:  # noqa
+                pass
+            os.remove(fname)
+            return
         elif kind in ('low', 'high'):
             child = getattr(fns[a[1]], kind)
             if child is None:
@@ -383,6 +430,8 @@ def machines(tier):
             ('forced2', dict(names=('x', 'y', 'z'), max_live=2, ops=('xor',), rich=True,
                              reordering=(100.0,), forced=(1, 2), traversal=False,
                              seeds=('used',)), 3),
+            ('files2', dict(names=('x', 'y'), max_live=2, ops=('and',), rich=True, files=True,
+                            traversal=False, seeds=('used',)), 3),
         ]
     else:
         pl = [
@@ -397,6 +446,8 @@ def machines(tier):
             ('forced3', dict(names=('x', 'y', 'z'), max_live=2, ops=('xor',), rich=True,
                              reordering=(100.0,), forced=(1, 2, 3, 4), traversal=False,
                              seeds=('used', 'fresh')), 3),
+            ('files3', dict(names=('x', 'y', 'z'), max_live=2, ops=('xor',), rich=True, files=True,
+                            traversal=False, reordering=(False, 2.5)), 3),
         ]
     out = []
     for label, kw, depth in pl:
